@@ -153,6 +153,19 @@ func (e Engine) Generate(r *core.Rand, tier core.Tier) *core.Scenario {
 				op.To = r.Intn(k.Gen.Entities + 1) // mostly escrow with entities
 			}
 			sc.Ops = append(sc.Ops, core.MustJSON(Op{K: "tx", Tx: &op}))
+			if op.Kind == "propose" && op.Mut == "" && r.Chance(2, 3) {
+				// Campaign: produce a block so that the proposal exists, then let the validator
+				// entities vote (mostly yes) so that proposals actually pass and get executed.
+				sc.Ops = append(sc.Ops, core.MustJSON(Op{K: "block", Block: &BlockOp{Proposer: r.Intn(8), Take: 20, Dt: 1}}))
+				for e := 0; e < k.Gen.Entities; e++ {
+					vote := TxOp{Kind: "vote", From: e, To: 0, Arg: 1000 + r.Intn(3), Fee: uint64(r.Range(0, 5))}
+					if r.Chance(1, 8) {
+						vote.To = r.Range(1, 2)
+					}
+					sc.Ops = append(sc.Ops, core.MustJSON(Op{K: "tx", Tx: &vote}))
+				}
+				sc.Ops = append(sc.Ops, core.MustJSON(Op{K: "block", Block: &BlockOp{Proposer: r.Intn(8), Take: 20, Dt: 1}}))
+			}
 		}
 		if k.Disk && r.Chance(1, 12) {
 			sc.Ops = append(sc.Ops, core.MustJSON(Op{K: "restart", Replica: r.Intn(nrep)}))
